@@ -41,6 +41,13 @@ def table():
                 spinners = [[{'op': 'instant'}] * 4 for _ in range(k)]
                 actor = [{'op': 'instant'}] * lead + ops
                 out.append((name, kw, [actor] + spinners if lead == 0 else spinners + [actor]))
+    # a ticker whose body took exactly one period: the next step has nothing to wait for but must still yield
+    for p in (1, 2):
+        actor = [{'op': 'tick', 'i': 1, 'kind': 'interval', 'p': p}, {'op': 'sleep', 'd': p},
+                 {'op': 'tick', 'i': 1, 'kind': 'interval', 'p': p}]
+        spinner = [{'op': 'sleep', 'd': p}, {'op': 'sleep', 'd': p}] + [{'op': 'instant'}] * 3
+        out.append(('tick_exact', {}, [spinner, actor]))
+        out.append(('tick_exact', {}, [spinner, spinner, actor]))
     return out
 
 
